@@ -104,7 +104,18 @@ def correspondence(programs: list[str], impl: list[list[str]], model: list[list[
         if len(il) != len(cmds) or len(ml) != len(cmds):
             out.append(Disagreement(i, -1, "<stream length>", str(len(il)), str(len(ml))))
             continue
+        alias: dict[str, str] = {}      # pool name -> the name under which the same OBJECT was first seen
+
+        def root(n: str) -> str:
+            while n in alias:
+                n = alias[n]
+            return n
+
         for k, cmd in enumerate(cmds):
+            toks = cmd.strip("()").split()
+            if len(toks) >= 3 and il[k].startswith("ok same") and toks[0] in ("apply", "join", "joinon", "mat",
+                                                                             "transfer", "conform"):
+                alias[toks[1]] = root(toks[2])
             if cmd.startswith(MODEL_ONLY_CMDS):
                 continue
             if cmd.startswith("(sqlexec "):
@@ -112,7 +123,18 @@ def correspondence(programs: list[str], impl: list[list[str]], model: list[list[
             if ml[k].startswith(("err Unspecified", "unspecified")):
                 break  # outside the model: the two sides may legitimately diverge from here on
             any_order = " order=any" in ml[k]
-            if normalise(il[k], any_order) != normalise(ml[k], any_order):
+            a, b = normalise(il[k], any_order), normalise(ml[k], any_order)
+            if " det=F" in ml[k] and cmd.startswith("(exec "):
+                # the model says the rows depend on the order in which a database delivered them
+                # (positional slice / key-based deduplication of rows that are not key-determined):
+                # only the shape of the answer is compared
+                a, b = re.sub(r"rows=\S+", "rows=*", a), re.sub(r"rows=\S+", "rows=*", b)
+            if toks[0] in ("join", "joinon") and len(toks) >= 4 and root(toks[2]) == root(toks[3]):
+                # both operands are ONE Python object: whether the result "is" the left operand cannot be
+                # expressed by the model for operation nodes (object identity is tracked for markers and
+                # leaves only); the trees are still compared
+                a, b = re.sub(r"^ok (same|new) ", "ok * ", a), re.sub(r"^ok (same|new) ", "ok * ", b)
+            if a != b:
                 out.append(Disagreement(i, k, cmd, il[k], ml[k]))
                 break  # later lines of the same program depend on this one
     return out
